@@ -459,7 +459,7 @@ class World:
                 self.probe("gen-unhandled-exception(not judged here: C06)")
             elif has_error:
                 self.probe("gen-error-diagnostic")
-        self.states.add(self.genrun.snapshot_digest(self.tree())[:16])
+        self.states.add("tree|" + self.genrun.snapshot_digest(self.tree())[:16])
         return {"completed": completed, "n_ops": seam.k, "res": res}
 
     had_fault = False
@@ -722,7 +722,7 @@ def run_spec(args: dict, sandbox: str) -> dict:
         "spec": out_spec,
         "faults": w.faults,
         "probes": dict(w.probes, **{"hostile-names": 1 if spec.get("hostile") else 0, "derived-location": 0 if w.explicit else 1}),
-        "states": sorted(w.states) + [f"shape:{shape}|{','.join(buckets)}"],
+        "states": sorted(w.states) + [f"shape|{shape}|{','.join(buckets)}"],
         "nontrivial_keys": [f"{shape}|{','.join(buckets)}"] if (w.n_gen_existing >= 2 or n_faults >= 1) else [],
         "fingerprint": rng.fingerprint(w.log),
         "sim_time": 0.0,
